@@ -1,9 +1,11 @@
 //! erbium-verif: drivers that replay scenarios into the real erbium code and
 //! record NDJSON traces for validation by TLC.  See /verif/DESIGN.md.
 mod dhcp;
+mod dnscache;
 mod dnswalk;
 mod dnswire;
 mod policy;
+mod ratelimit;
 mod store;
 mod wire;
 mod util;
@@ -18,6 +20,8 @@ fn main() {
         "dhcp" => dhcp::main(&args[2..]),
         "policy" => policy::main(&args[2..]),
         "dnswire" => dnswire::main(&args[2..]),
+        "dnscache" => dnscache::main(&args[2..]),
+        "ratelimit" => ratelimit::main(&args[2..]),
         "store" => store::main(&args[2..]),
         "wire" => wire::main(&args[2..]),
         d => {
